@@ -287,7 +287,13 @@ func (d *Data) handleSyncMessage(ctx *datastore.VersionedCtx, msg datastore.Sync
 
 	case labelmap.IngestedBlock:
 		chunkPt, _ := delta.BCoord.ToChunkPoint3d()
-		data, _ := delta.Data.MakeLabelVolume()
+		data, err := d.mappedLabelVolume(ctx.VersionID(), delta.Data)
+		if err != nil {
+			diagnostic = fmt.Sprintf("error on mapping ingested block %s for data %s: %v", delta.BCoord, d.DataName(), err)
+			dvid.Errorf("%s\n", diagnostic)
+			successful = false
+			break
+		}
 		d.ingestBlock(ctx, chunkPt, data, batcher)
 		mutID = delta.MutID
 
@@ -300,8 +306,17 @@ func (d *Data) handleSyncMessage(ctx *datastore.VersionedCtx, msg datastore.Sync
 
 	case labelmap.MutatedBlock:
 		chunkPt, _ := delta.BCoord.ToChunkPoint3d()
-		prev, _ := delta.Prev.MakeLabelVolume()
-		data, _ := delta.Data.MakeLabelVolume()
+		prev, err := d.mappedLabelVolume(ctx.VersionID(), delta.Prev)
+		var data []byte
+		if err == nil {
+			data, err = d.mappedLabelVolume(ctx.VersionID(), delta.Data)
+		}
+		if err != nil {
+			diagnostic = fmt.Sprintf("error on mapping mutated block %s for data %s: %v", delta.BCoord, d.DataName(), err)
+			dvid.Errorf("%s\n", diagnostic)
+			successful = false
+			break
+		}
 		d.mutateBlock(ctx, delta.MutID, chunkPt, prev, data, batcher)
 		mutID = delta.MutID
 
@@ -362,6 +377,31 @@ func (d *Data) handleSyncMessage(ctx *datastore.VersionedCtx, msg datastore.Sync
 		}
 		storage.LogActivityToKafka(activity)
 	}
+}
+
+// mappedLabelVolume returns the uint64 label volume of a block published by a synced
+// labelmap.  Those blocks hold supervoxel ids while the label lists are kept per mapped
+// (body) label, so the current mapping of the version is applied.  The passed block is
+// shared with other subscribers and is not modified.
+func (d *Data) mappedLabelVolume(v dvid.VersionID, block *labels.Block) ([]byte, error) {
+	if block == nil {
+		return nil, fmt.Errorf("no block data")
+	}
+	mappedBlock := *block
+	for dataUUID := range d.SyncedData() {
+		lmap, err := labelmap.GetByDataUUID(dataUUID)
+		if err != nil {
+			continue
+		}
+		mapped, _, err := lmap.GetMappedLabels(v, block.Labels)
+		if err != nil {
+			return nil, err
+		}
+		mappedBlock.Labels = mapped
+		break
+	}
+	data, _ := mappedBlock.MakeLabelVolume()
+	return data, nil
 }
 
 // If a block of labels is ingested, adjust each label's synaptic element list.
